@@ -9,7 +9,7 @@ UNI = ["α", "β", "γ", "δ", "é", "ß", "Ω", "ж", "中", "𝒳"]
 
 def gen_names(rng, n, style=None):
     """n distinct names, returned sorted (index = position in sorted order)."""
-    style = style or rng.choice(["v", "v", "letters", "unicode", "long", "blanks", "digits", "mixed"])
+    style = style or rng.choice(["v", "v", "letters", "unicode", "long", "blanks", "digits", "mixed", "casetwin", "numsuffix"])
     out = set()
     k = 0
     while len(out) < n:
@@ -26,6 +26,15 @@ def gen_names(rng, n, style=None):
             nm = rng.choice(string.ascii_letters) + " " + rng.choice(string.ascii_letters) + str(rng.randint(0, 99))
         elif style == "digits":
             nm = str(rng.randint(0, 200))
+        elif style == "casetwin":
+            # names that differ only by letter case, next to unrelated ones
+            nm = rng.choice(["v", "V", "a", "A", "b", "B", "ab", "Ab", "aB", "AB", "v1", "V1"])
+            if k > 40:
+                nm += str(k)
+        elif style == "numsuffix":
+            # digit runs of different length / leading zeros: natural order != string order
+            pre = rng.choice(["v", "v", "n", ""])
+            nm = pre + rng.choice([str(rng.randint(0, 12)), str(rng.randint(8, 120)), "0" + str(rng.randint(0, 12))])
         else:
             nm = rng.choice(["A", "b", "10", "2", "Z z", "ω", "q", "VERTICES", "x_1", "-5", "e"]) + (str(k) if k > 11 else "")
         out.add(nm)
